@@ -11,6 +11,7 @@ import (
 	"hash"
 	"crypto/rand"
 	"encoding/binary"
+	"errors"
 	"encoding/json"
 	"fmt"
 	"hash/fnv"
@@ -207,9 +208,19 @@ func (c *Ctx) exec(cs any) {
 	// of p, the bytes of n, all ones) before pseudo-random bytes. The library reads entropy only in Scalar.Random, which
 	// the checks script themselves, so on a tree that holds the properties this changes nothing; an operation that starts
 	// to depend on "random" blinding or nonces is exposed to the values it must not trust.
-	if !c.Prop.NoNoise && c.noiseRng.Intn(8) == 0 {
+	firstOfShard := c.caseSeq.Load() == 1 && c.Shard%4 == 1
+
+	if !c.Prop.NoNoise && (firstOfShard || c.noiseRng.Intn(8) == 0) {
 		old := rand.Reader
-		rand.Reader = newHostileReader(c.noiseRng)
+		hr := newHostileReader(c.noiseRng)
+
+		if firstOfShard {
+			// the very first monitored call of this process meets an entropy source that fails: what the library sets up once
+			// per process must not be left half-made by that
+			hr.failures = 2
+		}
+
+		rand.Reader = hr
 
 		c.Res.Counters["cases-run-under-hostile-entropy"]++
 
@@ -231,6 +242,7 @@ func (c *Ctx) exec(cs any) {
 }
 
 type hostileReader struct {
+	failures int
 	prefix []byte
 	pos    int
 	r      *gen.Rng
@@ -251,10 +263,22 @@ func newHostileReader(r *gen.Rng) *hostileReader {
 		prefix = append(prefix, pat...)
 	}
 
-	return &hostileReader{prefix: prefix, r: gen.New(r.U64(), "hostile-entropy")}
+	h := &hostileReader{prefix: prefix, r: gen.New(r.U64(), "hostile-entropy")}
+
+	// one time in three the source FAILS its first reads (one to three of them) before it serves anything
+	if r.Intn(3) == 0 {
+		h.failures = 1 + r.Intn(3)
+	}
+
+	return h
 }
 
 func (h *hostileReader) Read(p []byte) (int, error) {
+	if h.failures > 0 {
+		h.failures--
+		return 0, errors.New("entropy source not ready (injected)")
+	}
+
 	for i := range p {
 		if h.pos < len(h.prefix) {
 			p[i] = h.prefix[h.pos]
